@@ -364,15 +364,33 @@ fn replay(out: &mut Out, path: &std::path::Path) {
     }
 }
 
+
+/// corpus files are offered to every stream of the property: a file whose header names another
+/// stream (`# property Cnn stream <name>`) is not for us → empty, successful run
+fn foreign_corpus(path: &std::path::Path, stream: &str) -> bool {
+    let txt = std::fs::read_to_string(path).expect("read replay");
+    for l in txt.lines() {
+        if let Some(rest) = l.strip_prefix("# property ") {
+            let ts: Vec<&str> = rest.split(' ').collect();
+            if ts.len() >= 3 && ts[1] == "stream" {
+                return ts[2] != stream;
+            }
+        }
+    }
+    false
+}
+
 pub fn run(opts: &Opts) {
     std::panic::set_hook(Box::new(|_| {}));
     let mut out = Out::new(&opts.out);
     if let Some(p) = &opts.replay {
-        replay(&mut out, p);
+        if !foreign_corpus(p, "wire") {
+            replay(&mut out, p);
+        }
     } else {
         let t = Table::new();
         let mut rng = Rng::new(opts.seed ^ 0xc16);
-        let rounds = if opts.thorough() { 120 } else { 6 } * opts.scale;
+        let rounds = if opts.thorough() { 1500 } else { 40 } * opts.scale;
         for n in t.names.clone() {
             wire_case(&mut out, &t, &mut rng, n);
         }
